@@ -88,6 +88,10 @@ def special_inputs(rng):
     out.append(("size-overflow", b"struct A { uint64[65535] a; };\nstruct B { A[65535] a; };\nstruct C { B[65535] a; };\nstruct D { C[65535] a; };\n"
                                  b"struct E { D[65535] a; };\ninterface I { method m(in E e); };\n"))
     out.append(("self-cycle", b"struct S { S a; };\n"))
+    out.append(("rho-cycle-1", b"struct Outer { Inner i; };\nstruct Inner { Inner again; };\n"))
+    out.append(("rho-cycle-2", b"struct Header { uint64 a; Node n; };\nstruct Node { Link l; };\nstruct Link { Node back; };\n"))
+    out.append(("rho-cycle-3", b"struct Link { Node back; };\nstruct Node { Link l; };\nstruct Header { Node n; };\ninterface I { method m(in Header h); };\n"))
+    out.append(("iface-rho", b"interface A : B {};\ninterface B : C {};\ninterface C : B {};\n"))
     out.append(("deep-parens", b"interface I { method m(" + b"in uint8 a, " * 5000 + b"in uint8 z); };\n"))
     # counters of the code generators around the u8 boundary, distinct names (each slot class and
     # the members of a bundle are counted separately)
